@@ -18,6 +18,10 @@ EXTENDS Integers, Sequences, FiniteSets, TLC, Json
 \* Part 1
 Methods == { [api |-> "etcd",  m |-> "Txn",           kind |-> "write"],
              [api |-> "etcd",  m |-> "Range",         kind |-> "read"],
+             [api |-> "etcd",  m |-> "Get",           kind |-> "read"],     \* a Range without range end
+             [api |-> "etcd",  m |-> "RangeAtRev",    kind |-> "read"],     \* a Range that names its revision
+             [api |-> "etcd",  m |-> "CountAtRev",    kind |-> "read"],     \* count-only, with a revision
+             [api |-> "etcd",  m |-> "ListPartition", kind |-> "read"],     \* a Range with the partition-listing magic revision
              [api |-> "etcd",  m |-> "Watch",         kind |-> "watch"],
              [api |-> "etcd",  m |-> "RangeStream",   kind |-> "read"],     \* a watch request with a negative start revision
              [api |-> "brain", m |-> "Create",        kind |-> "write"],
